@@ -116,8 +116,8 @@ def rule_goodbye(ctx):
     ctx.ob("peer GOODBYE: session id dropped, then onLeave", ok, "order changed", om.fn.loc())
 
 
-def rule_pending_tables(ctx):
-    ctx.rule("C06.3-pending-tables")
+def rule_pending_tables(ctx, rule_id="C06.3-pending-tables"):
+    ctx.rule(rule_id)
     an = get_analysis(ctx)
     init = ctx.program.func(f"{APPSESSION}.__init__")
     created = sorted(s.targets[0].attr for s in walk_no_defs(init.node) if isinstance(s, ast.Assign) and is_self_attr(s.targets[0]) and s.targets[0].attr.endswith("_reqs"))
@@ -268,7 +268,10 @@ def rule_onclose(ctx):
     # the success callbacks registered on the two notifications (whatever they are called): the closure of that name defined last before
     # the registration
     fired = []
-    for c in sorted([c for c in calls_in(fn.node) if call_name(c) == "txaio.add_callbacks" and len(c.args) >= 2 and isinstance(c.args[1], ast.Name)], key=lambda c: c.lineno):
+    for c in sorted([c for c in calls_in(fn.node) if call_name(c) == "txaio.add_callbacks" and len(c.args) >= 2 and isinstance(c.args[1], (ast.Name, ast.Lambda))], key=lambda c: c.lineno):
+        if isinstance(c.args[1], ast.Lambda):   # the success continuation written in place
+            fired += [norm.text(c2.args[0]) for c2 in ast.walk(c.args[1].body) if isinstance(c2, ast.Call) and self_call(c2, "fire") and c2.args]
+            continue
         cands = [f_ for f_ in fn.nested_list() if f_.name == c.args[1].id and f_.node.lineno < c.lineno]
         if cands:
             fired += [norm.text(c2.args[0]) for c2 in calls_in(cands[-1].node) if self_call(c2, "fire") and c2.args]
